@@ -217,6 +217,11 @@ def boundary_cases(vidx=0):
                               ('0.05 g/g', '5 g', 'accept', 'reachable'), ('0.5 M', '5 g', 'accept', 'reachable')):
         add(f"create_solution_from,{tag}", Wx, [], {'op': 'create_solution_from', 'src': 'K', 'solute': 'nacl', 'conc': c,
                                                     'solvent': 'water', 'q': q, 'name': 'N'}, expect)
+    # ... with the solvent drawn from a container that holds less / enough of it
+    Wsv = {'K': ('container', 'inf L', [('water', '10 mL'), ('nacl', '10 mmol')]), 'V': ('container', 'inf L', [('water', '2 mL')])}
+    for q, expect, tag in (('10 mL', 'refuse', 'exceeds-solvent-container'), ('3 mL', 'accept', 'solvent-container,reachable')):
+        add(f"create_solution_from,{tag}", Wsv, [], {'op': 'create_solution_from', 'src': 'K', 'solute': 'nacl', 'conc': '0.5 M',
+                                                    'solvent': 'V', 'q': q, 'name': 'N'}, expect)
     # 8. drained vessels: a container whose whole content was transferred away keeps its substances with amount 0.0
     Wd2 = {'K': ('container', 'inf L', [('water', '10 mL'), ('nacl', '10 mmol')]),
            'K2': ('container', 'inf L', [('water', '10 mL'), ('nacl', '10 mmol')]),
